@@ -28,7 +28,7 @@ ID_MAPS = ("ident", "plus1", "10i+3", "reversed", "scattered")
 SCATTER = [7, 2, 9, 4, 11, 5, 13, 1]
 EXTRAS = ((), ("a",), ("a", "b"))
 # table / tree forms also carry non-float columns: 64-bit integers beyond 2^53 (not representable as doubles) and strings
-EXTRAS_TYPED = (("big",), ("a", "big"), ("big", "s"))
+EXTRAS_TYPED = (("big",), ("a", "big"), ("big", "s"), ("nan",), ("a", "nan", "obj"), ("allnan", "a"))
 FILE_COLS = ("a", "b")
 
 
@@ -50,10 +50,25 @@ def attrs(n, tagged):
     for i in range(n):
         if tagged:
             rows.append({"type": 1 + (i * 2) % 5, "x": 100.0 + i, "y": 0.5 * i, "z": -1.25 * i, "r": 0.25 + i, "a": 7.5 - i, "b": float(3 * i % 4),
-                         "big": 2**53 + 1 + 2 * i, "s": f"n{i}"})
+                         "big": 2**53 + 1 + 2 * i, "s": f"n{i}",
+                         # columns with missing values: NaN at every other node / None in an object column / all NaN
+                         "nan": float("nan") if i % 2 else 20.5 + i, "obj": None if i % 3 == 1 else f"o{i}", "allnan": float("nan")})
         else:
-            rows.append({"type": 3, "x": 1.0, "y": 2.0, "z": 3.0, "r": 0.5, "a": 4.0, "b": 6.0, "big": 2**53 + 1, "s": "n"})
+            rows.append({"type": 3, "x": 1.0, "y": 2.0, "z": 3.0, "r": 0.5, "a": 4.0, "b": 6.0, "big": 2**53 + 1, "s": "n", "nan": float("nan"), "obj": None, "allnan": float("nan")})
     return rows
+
+
+def _plain(d):
+    """Column lists with NaN spelled out, so that == compares missing values as equal."""
+    return {k: ["missing" if v is None or (isinstance(v, float) and v != v) else v for v in vs] for k, vs in d.items()}
+
+
+def _same(a, b):
+    """Cell equality; a missing value (NaN / None) equals a missing value of the same kind."""
+    ma, mb = a is None or (isinstance(a, float) and a != a), b is None or (isinstance(b, float) and b != b)
+    if ma or mb:  # a table may spell a missing cell None or NaN (pandas converts between them on construction)
+        return ma and mb
+    return a == b
 
 
 def judge(R, what, p, rows, extras, tagged, out_ids, out_pids, out_cols):
@@ -79,7 +94,7 @@ def judge(R, what, p, rows, extras, tagged, out_ids, out_pids, out_cols):
         for j in range(n):
             o = orig[j]
             for k in keys:
-                if out_cols[k][j] != rows[o][k]:
+                if not _same(out_cols[k][j], rows[o][k]):
                     R.fail("attribute-changed", ctx() + f" node tag {rows[o]['x']} column {k}: {out_cols[k][j]} != {rows[o][k]}", f"{what}:attrs:{'extra' if k in extras else 'std'}")
                     return False
             want_parent = p[o]
@@ -89,7 +104,7 @@ def judge(R, what, p, rows, extras, tagged, out_ids, out_pids, out_cols):
                 return False
     else:
         for k in keys:
-            if any(out_cols[k][j] != rows[0][k] for j in range(n)):
+            if any(not _same(out_cols[k][j], rows[0][k]) for j in range(n)):
                 R.fail("attribute-changed", ctx() + f" column {k}", f"{what}:attrs")
                 return False
         if not R.check(ref.ahu(out_pids) == ref.ahu(p), "not-isomorphic", ctx, f"{what}:iso"):
@@ -110,7 +125,7 @@ def check_tree_form(case, R):
         R.trivial()
     R.state(p, extras, tagged)
     rows = attrs(n, tagged)
-    dt = {"a": np.float64, "b": np.float32, "big": np.int64, "s": "U6"}
+    dt = {"a": np.float64, "b": np.float32, "big": np.int64, "s": "U6", "nan": np.float64, "obj": object, "allnan": np.float32}
     extra = {k: np.array([rows[i][k] for i in range(n)], dtype=dt[k]) for k in extras}
     t = build.make_tree(p, xyz=[(rows[i]["x"], rows[i]["y"], rows[i]["z"]) for i in range(n)], r=[rows[i]["r"] for i in range(n)],
                         types=[rows[i]["type"] for i in range(n)], extra=extra)
@@ -172,7 +187,7 @@ def check_table_form(case, R):
     trows = make_rows(p, order, idmap, rows, extras)
     cols = ["id", "type", "x", "y", "z", "r", "pid"] + list(extras)
     df = pd.DataFrame({c: [d[c] for d in trows] for c in cols})
-    before = {c: df[c].tolist() for c in cols}
+    before = _plain({c: df[c].tolist() for c in cols})
 
     def as_lists(d):
         return [int(i) for i in d["id"].tolist()], [int(i) for i in d["pid"].tolist()], {c: d[c].tolist() for c in d.columns}
@@ -180,7 +195,7 @@ def check_table_form(case, R):
     # copying form
     ok, out = R.impl("sort_nodes", sort_nodes, df)
     if ok:
-        R.check({c: df[c].tolist() for c in cols} == before and list(df.columns) == cols, "input-modified", f"sort_nodes p={p} order={order}", "sort_nodes:input-modified")
+        R.check(_plain({c: df[c].tolist() for c in cols}) == before and list(df.columns) == cols, "input-modified", f"sort_nodes p={p} order={order}", "sort_nodes:input-modified")
         R.check(list(out.columns) == cols, "columns-lost", f"sort_nodes columns {list(out.columns)}", "sort_nodes:columns")
         if list(out.columns) == cols:
             R.retain("sort_nodes", lambda out=out: {c: out[c].tolist() for c in out.columns})
@@ -307,6 +322,89 @@ def row_orders(n, full):
         yield tuple(reversed(base))
 
 
+# ------------------------------------------------------------------ sort -> in-place edit -> sort; columns sharing storage
+
+
+def check_sort_edit_sort(case, R):
+    """A tree that HAS been sorted (or has been asked whether it is) is edited in place - one node re-parented through a node
+    handle, through the column, or re-rooted without sorting - and sorted again: the second sort must be a sort of the CURRENT
+    table (nothing remembered from the first)."""
+    from swcgeom.core import redirect_tree, sort_tree
+    from swcgeom.core.swc_utils import is_sorted
+
+    p, edit = list(case[0]), case[1]
+    n = len(p)
+    R.state(p, edit)
+    rows = attrs(n, True)
+    t0 = build.make_tree(p, xyz=[(rows[i]["x"], rows[i]["y"], rows[i]["z"]) for i in range(n)], r=[rows[i]["r"] for i in range(n)],
+                         types=[rows[i]["type"] for i in range(n)], extra={"a": np.array([rows[i]["a"] for i in range(n)])})
+    ok, s1 = R.impl("sort_tree", sort_tree, t0)
+    if not ok:
+        return
+    R.impl("is_sorted", is_sorted, (s1.id(), s1.pid()))
+    ok, s1b = R.impl("sort_tree(sort_tree)", sort_tree, s1)  # warm: a sorted tree sorted again
+    c1 = build.tree_cols(s1)
+    p1 = [int(v) for v in c1["pid"]]
+    rows1 = [{k: c1[k][j] for k in ["type", "x", "y", "z", "r", "a"]} for j in range(n)]
+    if edit[0] == "redirect":
+        k = int(edit[1])
+        ok, e = R.impl("redirect_tree(sort=False)", lambda: redirect_tree(s1, k, sort=False))
+        if not ok:
+            return
+        ce = build.tree_cols(e)
+        pe = [int(v) for v in ce["pid"]]
+        rows_e = [{kk: ce[kk][j] for kk in ["type", "x", "y", "z", "r", "a"]} for j in range(n)]
+        what = f"sort_tree after redirect_tree(sorted tree, {k}, sort=False)"
+        obj = e
+    else:
+        i, j, how = int(edit[1]), int(edit[2]), edit[3]
+        if (i, j) not in build.reparent_edits(p1):
+            R.trivial()
+            return
+        obj, pe, other, other_p = build.apply_reparent(s1, p1, (i, j, how), None)
+        rows_e = rows1
+        what = f"sort_tree after re-parenting node {i} to {j} ({how}) in a sorted tree"
+        if other is not None:  # the untouched original must still sort as itself
+            ok, so = R.impl("sort_tree(original of the edited copy)", sort_tree, other)
+            if ok:
+                co = build.tree_cols(so)
+                judge(R, "sort_tree(original-after-copy-edit)", other_p, rows1, ("a",), True, [int(v) for v in co["id"]], [int(v) for v in co["pid"]], co)
+    ok, s2 = R.impl(what, sort_tree, obj)
+    if ok:
+        c2 = build.tree_cols(s2)
+        # the edited table may have its root anywhere (redirect): judge against the edited relation, tags identify nodes
+        judge(R, "sort-edit-sort", pe, rows_e, ("a",), True, [int(v) for v in c2["id"]], [int(v) for v in c2["pid"]], c2)
+        R.outcome(tuple(int(v) for v in c2["pid"]))
+
+
+def check_shared_columns(case, R):
+    """Two column names bound to ONE array object (t.ndata['r_raw'] = t.r(), a habit when stashing the raw radii before editing),
+    and a column that is a view of another: after sorting each column must still carry every node's own value."""
+    from swcgeom.core import sort_tree
+
+    p, kind = list(case[0]), case[1]
+    n = len(p)
+    R.state(p, kind)
+    rows = attrs(n, True)
+    t = build.make_tree(p, xyz=[(rows[i]["x"], rows[i]["y"], rows[i]["z"]) for i in range(n)], r=[rows[i]["r"] for i in range(n)],
+                        types=[rows[i]["type"] for i in range(n)])
+    if kind == "same-object":
+        t.ndata["r_raw"] = t.ndata["r"]
+    elif kind == "view":
+        t.ndata["r_raw"] = t.ndata["r"][:]
+    else:  # two columns carved out of one 2-d block
+        block = np.zeros((2, n), dtype=np.float32)
+        block[0], block[1] = t.ndata["r"], t.ndata["r"]
+        t.ndata["r"], t.ndata["r_raw"] = block[0], block[1]
+    rows2 = [dict(r_, r_raw=r_["r"]) for r_ in rows]
+    ok, s1 = R.impl("sort_tree", sort_tree, t)
+    if ok and R.check("r_raw" in s1.keys(), "columns-lost", f"sort_tree p={p}: {sorted(s1.keys())}", "shared-columns:columns"):
+        c = build.tree_cols(s1)
+        judge(R, f"sort_tree(columns sharing storage: {kind})", p, rows2, ("r_raw",), True, [int(v) for v in c["id"]], [int(v) for v in c["pid"]], c)
+        R.outcome(kind, tuple(int(v) for v in c["pid"]))
+
+
+
 def spaces(tier, seed):
     tree_hi = 6 if tier == "quick" else 7
     tab_full = 4 if tier == "quick" else 5
@@ -345,7 +443,30 @@ def spaces(tier, seed):
                 for c in pool3:
                     yield (a, b, c)
 
+    ses_hi = 5 if tier == "quick" else 6
+
+    def gen_ses():
+        for n in range(2, ses_hi + 1):
+            for p in S.labelled_trees(n):
+                for k in range(n):
+                    yield (p, ("redirect", k))
+                if n <= ses_hi - 1:
+                    # edits are enumerated on the SORTED table (what the first sort returns); every pair is tried, inadmissible ones are trivial
+                    for i in range(1, n):
+                        for j in range(n):
+                            for how in build.EDIT_HOWS:
+                                yield (p, ("reparent", i, j, how))
+
+    def gen_shared():
+        for n in range(2, tree_hi + 1):
+            for p in S.labelled_trees(n):
+                for kind in ("same-object", "view", "one-block"):
+                    yield (p, kind)
+
     return [
+        Space.of("sort-edit-sort", gen_ses, check_sort_edit_sort,
+                 bounds={"LT_max_nodes": ses_hi, "edits": "re-rooting at every node without sorting; every single re-parenting of the sorted tree (node handle / column / on a copy)"}),
+        Space.of("columns-sharing-storage", gen_shared, check_shared_columns, bounds={"LT_max_nodes": tree_hi, "kinds": ["same-object", "view", "one-block"]}),
         Space.of("sort-histories", gen_hist, check_history,
                  bounds={"sequences": f"all ordered pairs of (form, tree) over LT(2..{h2 - 1}) + ST({h2}) x {FORMS}; all ordered triples over LT(3..{h3})"}),
         Space.of("tree-form", gen_tree, check_tree_form, bounds={"LT_max_nodes": tree_hi, "extras": EXTRAS + EXTRAS_TYPED, "typed_columns": "big = int64 beyond 2^53, s = strings"}),
